@@ -216,6 +216,7 @@ fn c02_const_plc_cars() {{
         text.append(f"""
 //@ id: header_{v.lower()}
 //@ prop: C02
+//@ tier: {"thorough" if v in spec["kinds"] else "quick"}
 //@ functions: insim/src/packet.rs <Packet as BinWrite>::write_options
 //@ statement: packet kind {v}: the Packet writer emits the specification's type number {isp[v]} as the type byte and the request id (ALL 256 values) as the next byte - bytes 1 and 2 of every frame (byte 0 is the size: C03); other fields constant
 //@ timeout: 900
@@ -262,7 +263,7 @@ fn c02_const_plc_cars() {{
         for path, off in sorted(row["fields"].items(), key=lambda kv: kv[1]):
             w, expr = field_bytes(d, ty, path, scale)
             key = f"{ty}.{path}"
-            line = (f'    {{ let e = {expr}; let mut i = 0; while i < {w} {{ assert!(bytes[{off - 2} + i] == e[i], '
+            line = (f'    {{ let e = {expr}; let mut i = 0; while i < {w} {{ assert!(bytes[{off - 1} + i] == e[i], '
                     f'"{v}.{path} at frame offset {off}, {w} byte(s), little endian"); i += 1; }} }}')
             if key in unsure or f"{v}.{path}" in unsure:
                 report.append(f"{v}.{path}")
@@ -270,10 +271,10 @@ fn c02_const_plc_cars() {{
             checks.append(line)
             covered.update(range(off, off + w))
         for sp in row.get("spare", []):
-            checks.append(f'    assert!(bytes[{sp - 2}] == 0, "{v}: spare byte at frame offset {sp} is zero");')
+            checks.append(f'    assert!(bytes[{sp - 1}] == 0, "{v}: spare byte at frame offset {sp} is zero");')
             covered.add(sp)
         for off, ln in row.get("text", []):
-            checks.append(f'    {{ let mut i = 0; while i < {ln} {{ assert!(bytes[{off - 2} + i] == 0, '
+            checks.append(f'    {{ let mut i = 0; while i < {ln} {{ assert!(bytes[{off - 1} + i] == 0, '
                           f'"{v}: the {ln}-byte text field at frame offset {off} is all NUL for the empty text"); i += 1; }} }}')
             covered.update(range(off, off + ln))
         size = row["size"]
@@ -283,20 +284,23 @@ fn c02_const_plc_cars() {{
         text.append(f"""
 //@ id: layout_{v.lower()}
 //@ prop: C02
-//@ functions: {it.file} <{ty} as BinWrite>::write_options
-//@ statement: {v} (type {row['type']}, {size} bytes{' with empty text' if row.get('text') or any(f.ty == 'String' for f in it.fields) else ''}): for ALL values of the symbolic fields the encoder places {', '.join(f'{p}@{o}' for p, o in sorted(row['fields'].items(), key=lambda kv: kv[1]))} at the specification's frame offsets (little endian, times at the specification's resolution), writes 0 into spare byte(s) {row.get('spare', [])} and {size - 2} body bytes in total{'; frame bytes without a table row: ' + str(hole) if hole else ''}{'; reported only (unsure): ' + ', '.join(report) if report else ''}
+//@ functions: {it.file} <{ty} as BinWrite>::write_options; insim/src/packet.rs <Packet as BinWrite>::write_options
+//@ statement: {v} (type {row['type']}, {size} bytes{' with empty text' if row.get('text') or any(f.ty == 'String' for f in it.fields) else ''}): for ALL values of the symbolic fields the Packet writer emits type number {isp[v]} and places {', '.join(f'{p}@{o}' for p, o in sorted(row['fields'].items(), key=lambda kv: kv[1]))} at the specification's frame offsets (little endian, times at the specification's resolution), writes 0 into spare byte(s) {row.get('spare', [])} and {size - 2} body bytes in total{'; frame bytes without a table row: ' + str(hole) if hole else ''}{'; reported only (unsure): ' + ', '.join(report) if report else ''}
 //@ covers: 1
 //@ timeout: 900
 #[kani::proof]
 #[kani::stub(core::fmt::write, verif_fmt_ok)]
 {"#[kani::stub(std::hash::RandomState::new, verif_random_state)]" + chr(10) if g.needs_random_state else ""}fn c02_layout_{v.lower()}() {{
     let p = {val};
-{''.join(f'    kani::assume({a});{chr(10)}' for a in assumes)}    let mut w = Cursor::new(Vec::new());
-    let r = p.write_le(&mut w);
+{''.join(f'    kani::assume({a});{chr(10)}' for a in assumes)}    let pk = Packet::{v}(p.clone());
+    let mut w = Cursor::new(Vec::new());
+    let r = pk.write_le(&mut w);
     assert!(r.is_ok(), "a representable packet encodes");
-    let bytes = w.into_inner();
-    assert!(bytes.len() + 2 == {size}, "{v} is {size} bytes on the wire");
+    let bytes = w.into_inner();     // frame without its size byte: bytes[i] is frame byte i + 1
+    assert!(bytes[0] == {isp[v]}, "{v}: packet type number {isp[v]}");
+    assert!(bytes.len() + 1 == {size}, "{v} is {size} bytes on the wire");
 {chr(10).join(checks)}
+    core::mem::forget(pk);
     kani::cover!(r.is_ok(), "encoded");
     core::mem::forget(r);
     core::mem::forget(p);
